@@ -35,7 +35,7 @@ WORKERS = {"quick": 1, "thorough": 14}
 def gen_cases(ctx):
     rng = ctx.rng
     hi = 8 if ctx.tier == "quick" else 11
-    for i in range(ctx.scale(260, 5000)):
+    for i in range(ctx.scale(1200, 20000)):
         cls = rng.choice(gen.POSITIVE_CLASSES + ["classic", "flexible"])
         inst = gen.gen_instance(rng, cls, max_jobs=rng.choice([2, 3, 4]),
                                 max_machines=rng.choice([2, 3, 4]),
